@@ -32,7 +32,8 @@ ASSUMPTIONS = [
     'a transform that raises rejects the assignment and changes nothing',
 ]
 REQUIRED_COUNTERS = ['histories', 'snapshots_compared', 'final_records_compared',
-                     'rejections_checked', 'validator_exceptions_checked']
+                     'rejections_checked', 'validator_exceptions_checked',
+                     'late_writes']
 EXHAUSTIVE = {'quick': True, 'thorough': True}
 PLAN = {
     'quick': {'workers': 16, 'budget_s': 50, 'sampled_per_worker': 400,
@@ -281,6 +282,11 @@ def enumerated(tier):
             c = 0 if DECLS[d][1] == 1 else 0
             yield {'decls': [d], 'ops': [['setd', 0, c, v]], 'catch': catch,
                    'diag': diag}
+            if catch and diag is False:
+              yield {'decls': [d], 'ops': [['setd', 0, c, v]], 'catch': catch,
+                     'diag': diag, 'late': True}
+              yield {'decls': [d], 'ops': [['setd', 0, c, 0], ['setd', 0, 1, v]],
+                     'catch': catch, 'diag': diag, 'late': True}
             yield {'decls': [d], 'ops': [['setd', 0, c, 0], ['setd', 0, 1, v],
                                          ['setd', 0, c, v]],
                    'catch': catch, 'diag': diag}
@@ -304,6 +310,7 @@ def sampled(tier, rng):
         ops.append(['setd', mi, rng.randrange(8), rng.randrange(len(VALUES))])
     yield {'decls': decls, 'ops': ops, 'catch': rng.random() < .8,
            'diag': rng.choice([True, False, 'internal']),
+           'late': rng.random() < .2,
            'ret': rng.choice([None, None, None, 'SKIP', 'REPEAT', 'STOP',
                               'FAIL_AND_CONTINUE'])}
 
@@ -316,6 +323,7 @@ def run_case(case):
   meas = [build_measurement(d) for d in decls]
   refs = [Ref(d, case['diag']) for d in decls]
   trace = []       # per op: (exception name, [snapshots])
+  late_writes = {}
   viol = []
   c = {'histories': 1, 'snapshots_compared': 0, 'final_records_compared': 0,
        'rejections_checked': 0, 'validator_exceptions_checked': 0,
@@ -347,7 +355,9 @@ def run_case(case):
       if d[1] == 0:
         api.measurements[d[0]][coords_of(DECLS[9], op[2])] = VALUES[op[3]]
       else:
-        api.measurements[d[0]][coords_of(d, op[2])] = VALUES[op[3]]
+        handle = api.measurements[d[0]]
+        handle[coords_of(d, op[2])] = VALUES[op[3]]
+        late_writes[d[0]] = (handle, coords_of(d, op[2]), VALUES[op[3]])
     elif k == 'undeclared':
       api.measurements['no_such_measurement'] = VALUES[op[1]]
     elif k == 'nocoords':
@@ -379,6 +389,15 @@ def run_case(case):
       pass
     nodes.append(H.diagnose(pre_diag)(pre))
   nodes.append(put)
+  if case.get('late'):
+    # A handle kept from the finished phase delivers its last reading once
+    # more (a sampler thread that is late): same coordinate, same value.  The
+    # finished phase's measurement stays as it was validated.
+    def late(test):
+      for handle, coords, value in late_writes.values():
+        handle[coords] = value
+        c['late_writes'] = c.get('late_writes', 0) + 1
+    nodes.append(late)
   t = H.Test(*nodes)
   recs = []
   t.add_output_callbacks(recs.append)
